@@ -8,6 +8,7 @@ loaded model, survival of cycles / filename / hash / extra_data; loading in
 the same process, on a fresh thread and in a brand-new process."""
 
 import json
+import math
 import os
 import subprocess
 import sys
@@ -82,6 +83,7 @@ def steps_strategy(max_size=10):
     return st.lists(st.one_of(
         st.tuples(st.just('set'), idx, value),
         st.tuples(st.just('set'), idx, st.sampled_from(wbspec.SET_VALUES)),
+        st.tuples(st.just('setnp'), idx, st.sampled_from(HOSTILE_NUM)),
         st.tuples(st.just('eval'), idx),
         st.tuples(st.just('eval'), idx),
         st.tuples(st.just('evalrange'), idx)), max_size=max_size)
@@ -111,12 +113,17 @@ def inject(spec, hostile):
 def apply_step(model, spec, step, inputs_written=None):
     """-> ('obs', addr, value) or None"""
     ins, forms, ranges = spec['inputs'], spec['formulas'], spec['ranges']
-    if step[0] == 'set':
+    if step[0] in ('set', 'setnp'):
         addr = ins[step[1] % len(ins)]
         if addr not in model.cell_map:
             models.safe_eval(model, addr)
+        value = step[2]
+        if step[0] == 'setnp':
+            # users feed numpy scalars
+            import numpy as np
+            value = np.float64(value)
         try:
-            model.set_value(addr, step[2])
+            model.set_value(addr, value)
         except Exception as exc:
             return ('obs', 'set ' + addr, ('raises', exc_key(exc)))
         return None
@@ -261,10 +268,23 @@ def check_case(rec, spec, hostile, fmt, cycles, extra, pre, post, loader,
                      f'from_file({fmt}) on {loader} raised {exc!r}'[:400])
                 loaded = None
             if loaded is not None:
+                def is_formula(a):
+                    sheet, coord = a.rsplit('!', 1)
+                    const = spec['sheets'].get(sheet, {}).get(coord)
+                    return isinstance(const, str) and const.startswith('=')
+                # constants first: a constant that changed explains a
+                # formula that changed
+                ordered = sorted(saved_addrs, key=is_formula)
+
                 def compare_all():
-                    for a in saved_addrs:
+                    for a in ordered:
                         got = models.safe_eval(loaded, a)
-                        if not exact(before[a], got):
+                        # constants must round-trip exactly; formula results
+                        # may differ in the last bits (python's sum() is
+                        # compensated for plain floats only, loaded models
+                        # hold float subclasses)
+                        eq = models.same_value if is_formula(a) else exact
+                        if not eq(before[a], got):
                             sheet, coord = a.rsplit('!', 1)
                             const = spec['sheets'].get(sheet, {}).get(coord)
                             feature = text_class(before[a]) if not (
@@ -333,11 +353,12 @@ def check_case(rec, spec, hostile, fmt, cycles, extra, pre, post, loader,
                     for step in post:
                         o1 = apply_step(original, spec, step)
                         o2 = apply_step(loaded, spec, step)
-                        if step[0] == 'set':
+                        if step[0] in ('set', 'setnp'):
                             state['writes'] += 1
                         if o1 is None and o2 is None:
                             continue
-                        if o1 is None or o2 is None or not exact(o1[2], o2[2]):
+                        if o1 is None or o2 is None or not models.same_value(
+                                o1[2], o2[2]):
                             vcls = text_class(step[2]) if step[0] == 'set' \
                                 else 'observe'
                             fail(f'history-differs:{fmt}:{vcls}' +
@@ -349,6 +370,21 @@ def check_case(rec, spec, hostile, fmt, cycles, extra, pre, post, loader,
                                 last[o1[1]], o1[2]):
                             state['changed'] = True
                         last[o1[1]] = o1[2]
+                    # final sweep: every formula cell on both models
+                    if not failure:
+                        for a in spec['formulas']:
+                            v1 = models.safe_eval(original, a)
+                            v2 = models.safe_eval(loaded, a)
+                            if not models.same_value(v1, v2):
+                                fail(f'history-differs:{fmt}:final' +
+                                     (':cycles' if cycles else ''),
+                                     f'after the post-load history {a} is '
+                                     f'{v1!r} in the original and {v2!r} in '
+                                     f'the loaded model')
+                                break
+                            if a in before and not models.same_value(
+                                    before[a], v1):
+                                state['changed'] = True
     except Exception as exc:
         fail(f'raises:{fmt}:{exc_key(exc)}' + (':cycles' if cycles else ''),
              f'save/load sequence raised {exc!r}'[:400])
@@ -429,6 +465,16 @@ json.dump(out, open(sys.argv[1] + '.out', 'w'), default=lambda o: repr(o))
 '''
 
 
+def close_obs(a, b):
+    """json-normalised observations equal up to float noise"""
+    if isinstance(a, list) and isinstance(b, list):
+        return len(a) == len(b) and all(close_obs(x, y) for x, y in zip(a, b))
+    if isinstance(a, (int, float)) and isinstance(b, (int, float)) and \
+            not isinstance(a, bool) and not isinstance(b, bool):
+        return math.isclose(a, b, rel_tol=1e-9, abs_tol=1e-12)
+    return a == b
+
+
 def run_fresh_process(rec, jobs, tmp):
     from vlib.runner import ROOT, HarnessError, jdump
     job_file = os.path.join(tmp, 'jobs.json')
@@ -458,8 +504,8 @@ def run_fresh_process(rec, jobs, tmp):
         for a, want in job['cells'].items():
             got = res['cells'].get(a)
             if norm(want) != got and not (
-                    isinstance(want, float) and isinstance(got, (int, float))
-                    and float(got) == want):
+                    klass(want) == 'number' and klass(got) == 'number' and
+                    math.isclose(want, got, rel_tol=1e-9, abs_tol=1e-12)):
                 bad = (f'fresh-process:loaded-differs:{fmt}:'
                        f'{text_class(want)}{cyc}',
                        f'{a}: original {want!r}, fresh process {got!r}')
@@ -467,7 +513,7 @@ def run_fresh_process(rec, jobs, tmp):
         if not bad:
             for step, want, got in zip(job['post'], job['expected'],
                                        res['obs']):
-                if norm(want) != got:
+                if norm(want) != got and not close_obs(norm(want), got):
                     bad = (f'fresh-process:history-differs:{fmt}{cyc}',
                            f'step {step}: original {want!r}, fresh process '
                            f'{got!r}')
@@ -480,7 +526,7 @@ def shards(tier, seed):
     out = [dict(kind='open')]
     for k in range(14):
         out.append(dict(kind='hyp', seed=seed * 1000 + k,
-                        n=60 if tier == 'quick' else 1200))
+                        n=100 if tier == 'quick' else 1500))
     out.append(dict(kind='fresh', seed=seed * 1000 + 500,
                     n=40 if tier == 'quick' else 400))
     return out
